@@ -1,7 +1,7 @@
 #!/bin/bash
 # tools/confirm_mutant.sh <worktree> <PROP> <letter>  -- confirm a delivered seeded change myself, then file it under /verif/seeded/
-wt=$1; P=$2; L=$3
-id=${P}_${L}
+wt=$1; P=$2; L=$3; S=${4:-$3}   # optional 4th argument: suffix to file it under (round 2: a->c, b->d)
+id=${P}_${S}
 cd $wt || exit 2
 git checkout -q -- src; mkdir -p tests
 git apply --check out/$L.diff || { echo "$id: patch does not apply"; exit 1; }
@@ -19,7 +19,7 @@ echo "$with" | grep -q "FAILED" || ok=0
 echo "$without" | grep -q "ok\." || ok=0
 if [ $ok = 1 ]; then
   d=/verif/seeded/$id; mkdir -p $d
-  cp out/$L.diff $d/patch.diff; cp out/demo_${P}_$L.rs $d/
+  cp out/$L.diff $d/patch.diff; cp out/demo_${P}_$L.rs $d/demo_${P}_$S.rs
   printf '%s\n' "$lib" "$with" "$without" > $d/confirm.log
   echo "$id CONFIRMED"
 else
